@@ -1,7 +1,7 @@
 (** C16 — property theorems only.  Each is closed by [exact] of a lemma in Proofs*.v and followed
     by [Print Assumptions]. *)
 From V Require Import Base.Util Gql.Ast Writer.Wop C16.Model C16.Spec
-  C16.ProofsTemplate C16.ProofsString C16.ProofsStrip C16.ProofsDoc C16.ProofsReindent C16.ProofsGlue C16.Proofs.
+  C16.ProofsTemplate C16.ProofsString C16.ProofsStrip C16.ProofsDoc C16.ProofsReindent C16.ProofsGlue C16.SpecLex C16.LexGuard C16.ProofsLex1 C16.ProofsLex2 C16.ProofsLex3 C16.Proofs.
 Local Open Scope N_scope.
 
 (** the template literal JsStringWriter writes evaluates to a line feed followed by exactly what
@@ -55,6 +55,51 @@ Print Assumptions C16_print_never_glues_tsdoc_ext.
 Theorem C16_print_never_glues_opdoc : forall d, ProofsGlue.G (print_opdoc d) = true.
 Proof. exact G_print_opdoc. Qed.
 Print Assumptions C16_print_never_glues_opdoc.
+
+(** token level.  Generic half: for any operation list whose chunks are simple texts or single-line
+    plain string literals carrying the tokens [ts] ([TK]) and do not glue ([G]), the text
+    JustWriter writes -- indentation included -- lexes (specification's lexer) to exactly [ts] *)
+Theorem C16_chunks_lex : forall ops ts,
+  TK ops ts -> ProofsGlue.G ops = true -> lex (just_run ops) = Some ts.
+Proof. intros ops ts H HG. apply L_lex. apply TK_lex_just_run; assumption. Qed.
+Print Assumptions C16_chunks_lex.
+
+(** the printed text of a document lexes to the token sequence of the document (the document
+    written out by the grammar).  Guard [_lx]: names / numbers are runs of word characters, strings
+    are single-line and plain, no #import lines, no member-less union extension *)
+Theorem C16_print_tsdoc_lex : forall d,
+  tsdoc_lx d = true -> lex (just_run (print_tsdoc d)) = Some (tokens_of_tsdoc d).
+Proof. exact print_tsdoc_lex. Qed.
+Print Assumptions C16_print_tsdoc_lex.
+
+Theorem C16_print_tsdoc_ext_lex : forall d,
+  tsdoc_lx d = true -> lex (just_run (print_tsdoc_ext d)) = Some (tokens_of_tsdoc d).
+Proof. exact print_tsdoc_ext_lex. Qed.
+Print Assumptions C16_print_tsdoc_ext_lex.
+
+Theorem C16_print_opdoc_lex : forall d,
+  opdoc_lx d = true -> lex (just_run (print_opdoc d)) = Some (tokens_of_opdoc d).
+Proof. exact print_opdoc_lex. Qed.
+Print Assumptions C16_print_opdoc_lex.
+
+(** hence, for every parser of token sequences that is correct on the token sequences of
+    documents (returns the document up to a relation [R], e.g. equality modulo positions):
+    parsing the printed text gives the document back up to [R] *)
+Theorem C16_tsdoc_roundtrip_any_parser :
+  forall (R : tsdoc -> tsdoc -> Prop) (parse : list tok -> option tsdoc),
+  (forall a, exists a', parse (tokens_of_tsdoc a) = Some a' /\ R a' a) ->
+  forall d, tsdoc_lx d = true ->
+  exists d', match lex (just_run (print_tsdoc_ext d)) with Some ts => parse ts | None => None end = Some d' /\ R d' d.
+Proof. exact tsdoc_roundtrip_any_parser. Qed.
+Print Assumptions C16_tsdoc_roundtrip_any_parser.
+
+Theorem C16_opdoc_roundtrip_any_parser :
+  forall (R : opdoc -> opdoc -> Prop) (parse : list tok -> option opdoc),
+  (forall a, exists a', parse (tokens_of_opdoc a) = Some a' /\ R a' a) ->
+  forall d, opdoc_lx d = true ->
+  exists d', match lex (just_run (print_opdoc d)) with Some ts => parse ts | None => None end = Some d' /\ R d' d.
+Proof. exact opdoc_roundtrip_any_parser. Qed.
+Print Assumptions C16_opdoc_roundtrip_any_parser.
 
 (** the literal print_string writes, followed by anything that is not a quote, lexes as one
     StringValue whose value (nitrogql's reading) is the string *)
